@@ -54,6 +54,8 @@ def build_cases(ctx):
             except Exception as e:  # noqa: BLE001
                 ctx.notes.append(f"corpus file {f.name} unreadable: {e}")
     cases += H.special_cases() + H.grammar_cases()
+    # fixed families: project schemas shadowing a packaged name; reporting flags / the other tool on the same (content, schema)
+    cases += H.overlay_cases() + H.sweep_cases()
     # broad arrays: every content x every schema argument, flags pairwise
     cases += [{"tool": "validate", **r, **H.V_EXTRA} for r in H.pairwise(H.V_DIMS, rng)]
     cases += [{"tool": "write", **r, **H.W_EXTRA} for r in H.pairwise(H.W_DIMS, rng)]
@@ -132,6 +134,52 @@ def process(ctx, cases, results, replies, findings, c20_findings):
             ctx.failures.append({"case": case, "why": why, "why_class": why_class, "observed": res["impl"],
                                  "call": res.get("args"), "model": model,
                                  "replay_hint": "tools/check.py C10 --replay <this file> re-runs exactly this case"})
+
+
+def flag_invariance(ctx, cases, results, findings):
+    """Across ALL cases of the run (no further calls): calls of one tool that agree on everything that is validated (content, schema
+    argument, project overlay, HOME, profile / lenient, input or target mode) and differ only in reporting flags (octave_validate:
+    fix — the status is decided before any repair —, diff_only, compact, grammar_hint, debug_grammar; octave_write: corrections_only,
+    grammar_hint, debug_grammar) carry the same validation_status.  VALIDATED next to INVALID means the VALIDATED call overstates."""
+    groups = {}
+    for case, res in zip(cases, results):
+        tool = case.get("tool")
+        if tool not in ("validate", "write") or "raise" in res["impl"] or res.get("cli"):
+            continue
+        if tool == "validate":
+            key = [tool, case.get("content"), case.get("schema"), case.get("project"), case.get("home", "home"), case.get("input", "content"),
+                   (case.get("profile") if case.get("profile") is not None else "STANDARD").upper()]
+        else:
+            key = [tool, case.get("content"), case.get("schema"), case.get("project"), case.get("home", "home"), case.get("mode", "content"),
+                   case.get("target", "fresh"), case.get("base_hash"), case.get("policy", "error"), bool(case.get("lenient")), case.get("changes")]
+        groups.setdefault(json.dumps(key, sort_keys=True, ensure_ascii=False, default=str), []).append((case, res))
+    n = 0
+    for lst in groups.values():
+        if len(lst) < 2:
+            continue
+        n += 1
+        by = {}
+        for case, res in lst:
+            # an error envelope (unwritable target, emit failure, …) hard-codes UNVALIDATED: it says nothing about the schema verdict
+            if res["impl"].get("status") == "success":
+                by.setdefault(res["impl"].get("vs"), (case, res))
+        if len(by) < 2:
+            continue
+        over = "VALIDATED" in by and "INVALID" in by
+        (ca, ra) = by["VALIDATED"] if "VALIDATED" in by else next(iter(by.values()))
+        (cb, rb) = by["INVALID"] if over else [v for k, v in by.items() if v[0] is not ca][0]
+        why_class = "overstated" if over else "flag-dependent"
+        diff = {k: (ca.get(k), cb.get(k)) for k in set(ca) | set(cb) if ca.get(k) != cb.get(k) and k != "companions"}
+        kid = classify(ca, why_class, findings)
+        if kid:
+            ctx.known_hits[kid] = ctx.known_hits.get(kid, 0) + 1
+            continue
+        ctx.failures.append({"case": {**ca, "companions": True}, "other_case": cb, "why_class": why_class, "observed": ra["impl"], "observed_other": rb["impl"],
+                             "call": ra.get("args"),
+                             "why": f"octave_{ca['tool']}: validation_status={ra['impl'].get('vs')} for this call but {rb['impl'].get('vs')} for the call that differs only in "
+                                    f"reporting flags {diff} (same content, schema {ca.get('schema')!r}, profile/lenient, mode)"
+                                    + (f": VALIDATED although the named schema reports errors {rb['impl'].get('verr_codes')} (count {rb['impl'].get('verr_count')})" if over else "")})
+    ctx.count("flag-invariance:groups", n)
 
 
 def gate_check(ctx, drv):
@@ -256,6 +304,7 @@ def run(ctx: vlib.Ctx):
             replies = drv.batch_par([r["req"] for r in results])
             process(ctx, cases, results, replies, findings, c20_findings)
             if not ctx.replay:
+                flag_invariance(ctx, cases, results, findings)
                 gate_check(ctx, drv)
                 injection_check(ctx, drv)
                 # the status is about the schema file as it is now (one long-lived process, the file regenerated between calls)
